@@ -110,8 +110,8 @@ pub fn run_scripted(desc: &str, req: &Req, state: Scripted) -> Run {
         })),
     );
     let keep = state.clone();
-    let opt = req.builder().build();
     let res = catch_unwind(AssertUnwindSafe(|| {
+        let opt = req.builder().build();
         let out = opt.optimise_state(state);
         // the caller scores what it got back
         let _ = out.score();
@@ -154,8 +154,8 @@ where
         None,
     );
     let keep = rec.inner.clone();
-    let opt = req.builder().build();
     let res = catch_unwind(AssertUnwindSafe(|| {
+        let opt = req.builder().build();
         let out = opt.optimise_state(rec);
         // the caller scores what it got back
         let _ = out.score();
@@ -425,6 +425,7 @@ pub fn project(runs: &[Run]) -> (Vec<String>, Vec<i64>, FileStats) {
         let mut have_draw = false;
         let mut base: Vec<f64> = run.start_vec.clone();
         let mut cur: f64 = std::f64::NAN; // optimiser's belief
+        let mut held: f64 = std::f64::NAN; // observed score of the state that is held
         let mut lstart: f64 = std::f64::NAN;
         let mut new_score: Option<f64> = None;
         let mut last_rej: u64 = 0;
@@ -438,6 +439,7 @@ pub fn project(runs: &[Run]) -> (Vec<String>, Vec<i64>, FileStats) {
                         lines.push(json!({"ev": "begin", "score": p.rank(*s)}).to_string());
                         if let Some(x) = s {
                             cur = *x;
+                            held = *x;
                             lstart = *x;
                         }
                     } else if in_flight {
@@ -488,8 +490,8 @@ pub fn project(runs: &[Run]) -> (Vec<String>, Vec<i64>, FileStats) {
                         // acceptance probability of the Metropolis rule from the observed scores
                         // and the temperature in force
                         let (metro, pn) = match new_score {
-                            Some(ns) if ns.is_finite() && cur.is_finite() => {
-                                let pr = f64::min(f64::exp((ns - cur) / kt_now), 1.);
+                            Some(ns) if ns.is_finite() && held.is_finite() => {
+                                let pr = f64::min(f64::exp((ns - held) / kt_now), 1.);
                                 if pr.is_nan() {
                                     // 0/0: equal scores at zero temperature; decided by Better
                                     ("unsure", 0.)
@@ -528,6 +530,9 @@ pub fn project(runs: &[Run]) -> (Vec<String>, Vec<i64>, FileStats) {
                         }
                         if *loop_rejections == last_rej {
                             st.accepts += 1;
+                            if let Some(ns) = new_score {
+                                held = ns;
+                            }
                         } else {
                             st.rejects += 1;
                         }
